@@ -62,6 +62,18 @@ def plan(tier, seed):
             # python -O: "combinations a solver cannot handle raise an error" must not rest on
             # assert statements
             P.cases[-1]["pyopt"] = True
+    # underdetermined systems (more unknowns than equations, lamda = 0): the minimisers are not
+    # unique but the optimal value is (0 for a full-row-rank A): every solver returns a point
+    # with that value.  Directed, every run: the default solver (ConjugateGradient) with the
+    # default budget is the known finding C14/cg-singular-normal-operator-diverges
+    rngw = P.rng("lls-wide")
+    for i in range(10 if tier == "quick" else 120):
+        solver = [None, "ConjugateGradient", "GradientMethod", "PrimalDualHybridGradient",
+                  "ADMM"][i % 5]
+        P.add("lls-wide", m=int(rngw.integers(2, 6)), extra=int(rngw.integers(1, 4)),
+              cplx=bool(rngw.random() < 0.5), solver=solver,
+              max_iter=int(pick(rngw, [100, 100, 300])) if solver in (None, "ConjugateGradient")
+              else 4000, wseed=int(rngw.integers(1 << 30)))
     # operators for which the constant vector is an exact eigenvector of A^H A (+ G^H G) for
     # a non-dominant eigenvalue (identity, circular convolution, with / without a
     # finite-difference G), solved with defaulted step sizes
@@ -102,7 +114,40 @@ def dense(A):
     return np.stack(cols, axis=1)
 
 
+def run_wide(case):
+    import sigpy as sp
+    rng = np.random.default_rng(case["wseed"])
+    m, n = case["m"], case["m"] + case["extra"]
+    dt = np.complex128 if case["cplx"] else np.float64
+    M = crandn(rng, [m, n], dt)
+    y = crandn(rng, [m, 1], dt)
+    if np.linalg.cond(M) > 50:
+        return inconclusive("generated matrix too ill-conditioned")
+    A = sp.linop.MatMul([n, 1], M)
+    solver = case["solver"]
+    sig = "lls-wide|%s|%s" % (solver, "c" if case["cplx"] else "r")
+    wit = dict(case)
+    try:
+        x = sp.app.LinearLeastSquares(A, y, solver=solver, max_iter=case["max_iter"],
+                                      show_pbar=False).run()
+    except Exception as e:
+        return violated(sig, "underdetermined least squares (%d x %d, lamda = 0) raised %s" % (
+            m, n, type(e).__name__), wit, mech="wide-raised")
+    val = 0.5 * float(np.sum(np.abs(M @ x - y) ** 2))
+    scale = 0.5 * float(np.sum(np.abs(y) ** 2))
+    obs = {"objective": val, "norm_x": nrm(x), "m": m, "n": n}
+    tol_ = 1e-8 if solver in (None, "ConjugateGradient", "ADMM") else 1e-4
+    if not (np.all(np.isfinite(x)) and val <= tol_ * scale):
+        return violated(sig, "underdetermined system %d x %d, lamda = 0: the optimal value is 0 "
+                        "but the returned x has objective %.3g (||x|| = %.3g) with solver %s "
+                        "after max_iter=%d" % (m, n, val, nrm(x), solver, case["max_iter"]),
+                        wit, mech="wide-suboptimal:" + str(solver), obs=obs)
+    return held(sig, obs, 1, True)
+
+
 def run_case(case):
+    if case["gen"] == "lls-wide":
+        return run_wide(case)
     import sigpy as sp
     rng = rng_for(case)
     n, cplx = case["n"], case["cplx"]
